@@ -28,6 +28,8 @@ def mapping_literal(inst, ctor, es, ss, dpv):
     ev = "%s(std::array<%s, %d>{%s})" % (E, T, R, ", ".join(lit(T, e) for e in es)) if R > 0 else "%s{}" % E
     if inst.lay == 2:
         return "%s(%s, std::array<%s, %d>{%s})" % (M, ev, T, R, ", ".join(lit(T, s) for s in ss))
+    if ctor == 4:
+        return "%s(Kokkos::layout_stride::mapping<%s>(%s, std::array<%s, %d>{%s}))" % (M, E, ev, T, R, ", ".join(lit(T, s) for s in ss))
     if ctor == 2:
         return "%s(%s, %s)" % (M, ev, lit(T, dpv))
     return "%s(%s)" % (M, ev)
@@ -49,6 +51,8 @@ def gen_map_cases(rng, tier):
         head = [inst.id, inst.t, inst.lay, inst.pv, R] + list(inst.pat) + [meta["ctor"]] + list(es)
         if inst.lay == 2:
             head += list(meta["ss"]) if meta["ctor"] != 3 else list(es)
+        elif meta["ctor"] == 4:
+            head += list(meta["ss"])
         if meta["ctor"] == 2:
             head.append(meta["dpv"])
         if 0 in es:
